@@ -13,6 +13,7 @@ import MptModel.Lemmas.EncodeDelete
 import MptModel.Lemmas.EncodeArrayXX
 import MptModel.Impl.CodecTable
 import MptModel.Lemmas.DecodeCommand
+import MptModel.Lemmas.DecodeDeliver
 namespace Mpt.C01
 open Mpt.Cobs Mpt.Codec
 
@@ -172,7 +173,8 @@ theorem encoder_total_caps (v : Variant) (fill : Byte) (fuel : Nat) (win : List 
     ∃ o, encodeSched (.cobs v) fill fuel {} win chunks caps = .ok o ∧
       dec v (o.win.take o.st.done) = some chunks.flatten := by
   have hinv : EncInvM v {} win [] [] := EncInvM.start v {} win [] rfl rfl (by simp) (by simp)
-  obtain ⟨o, ho⟩ := sched_total_capsM v fill fuel {} win chunks caps [] [] hinv hne hf (by simp; omega)
+  obtain ⟨o, ho⟩ := sched_total_capsM v fill fuel {} win chunks caps [] [] hinv hne hf
+    (by show 0 + max 0 1 + 2 * chunks.flatten.length + 2 ≤ win.length + caps.sum; omega)
   exact ⟨o, ho, (encoder_refines v fill _ win chunks caps o ho).1⟩
 
 example : (encodeSched (.cobs .zpeR) 0xEE 12 {} [] [[7, 0, 0, 9]] [1, 0, 1, 1, 1, 1, 1, 1, 1, 1, 1]).toOption.map
@@ -350,6 +352,7 @@ theorem cmd_array_push_refines (fill : Byte) (a : EncArray) (pre : List Byte) (c
   simp only [List.nil_append] at e3 e4
   exact ⟨a', buf', e1, e2, e3, by simp [encStr, hz], e4⟩
 
+set_option maxRecDepth 8000 in
 example : (arrayMessage .command 0xBE {} [[0x68], [0x69, 0x21]]).toOption.map
     (fun a => (a.buf.getD []).take a.st.done) = some [0x68, 0x69, 0x21, 0] := by decide
 
@@ -400,5 +403,56 @@ theorem cmd_decoder_refines (st : DecState) (segs : List Seg) (body junk : List 
   decodeCommand_honest st segs body junk hlen hpos hin hnz
 
 example : (decodeCommand { curr := 2 } [(0, [0xdd, 0xdd, 0x68, 0x69, 0, 7])] false).region = [0x04, 0x20, 0x68, 0x69] := by decide
+
+/-! ### model encoder into model decoder -/
+
+/-- Round trip between the two implementation models, all four COBS framings: whatever the pieces and the
+    growth schedule the encoder model was driven with, its finished frame — placed behind the input position
+    of a decoder between two messages, in any segments, followed by anything — makes the decoder model
+    (`mpt_decode_cobs*`) deliver exactly the message, given head room of the frame length plus the alignment
+    margin; without that head room the only other answer is the request for work area (never "wait", never
+    "broken", never another message). -/
+theorem model_roundtrip (v : Variant) (fill : Byte) (fuel : Nat) (win : List Byte) (chunks : List (List Byte))
+    (caps : List Nat) (o : EncOut) (h : encodeSched (.cobs v) fill fuel {} win chunks caps = .ok o)
+    (st : DecState) (segs : List Seg) (junk : List Byte) (hb : Bnd (flat segs).length st) (hf : Fresh st)
+    (hin : (flat segs).drop st.curr = o.win.take o.st.done ++ junk) :
+    (((decodeV v st segs false).ret = .val 1 ∧ (decodeV v st segs false).region = chunks.flatten) ∨
+      (decodeV v st segs false).ret = .err .MissingBuffer) ∧
+    (st.pos + st.len + (o.win.take o.st.done).length + 14 ≤ st.curr →
+      (decodeV v st segs false).ret = .val 1 ∧ (decodeV v st segs false).region = chunks.flatten) := by
+  obtain ⟨hd, _, _, ms, _, e4⟩ := encoder_refines v fill fuel win chunks caps o h
+  have hnz : ∀ x ∈ encB v [] false ms, x ≠ 0 := encB_nz v ms [] false (Inv.nil v)
+  rw [e4] at hd hin ⊢
+  have hin' : (flat segs).drop st.curr = encB v [] false ms ++ 0 :: junk := by simpa using hin
+  constructor
+  · rcases decodeV_accepts v st segs _ junk _ hb hf hin' hnz hd with ⟨a, b, _⟩ | a
+    · exact Or.inl ⟨a, b⟩
+    · exact Or.inr a
+  · intro hroom
+    simp only [List.length_append, List.length_cons, List.length_nil] at hroom
+    obtain ⟨a, b, _⟩ := decodeV_delivers v st segs _ junk _ hb hf hin' hnz hd (by omega)
+    exact ⟨a, b⟩
+
+example : (decodeV .zpe { curr := 32 } [(0, List.replicate 32 0xdd ++ enc .zpe [7, 0, 0, 9] ++ [5])] false).region = [7, 0, 0, 9] := by
+  decide
+
+/-- the same for command text: the frame of the encoder model, whatever the schedule, makes the model of
+    `mpt_decode_command` deliver header ++ message -/
+theorem cmd_model_roundtrip (fill : Byte) (fuel : Nat) (win : List Byte) (chunks : List (List Byte)) (caps : List Nat)
+    (o : EncOut) (h : encodeSched .command fill fuel {} win chunks caps = .ok o)
+    (st : DecState) (segs : List Seg) (junk : List Byte)
+    (hlen : st.len - st.msg.getD 0 = 0) (hpos : 2 ≤ st.curr)
+    (hin : (flat segs).drop st.curr = o.win.take o.st.done ++ junk) :
+    (decodeCommand st segs false).ret = .val 1 ∧ (decodeCommand st segs false).region = cmdHeader ++ chunks.flatten := by
+  obtain ⟨e, _, _, _, _⟩ := cmd_encoder_sched_refines fill fuel {} win [] chunks caps o ⟨rfl, rfl⟩ (by simp) (by simp) h
+  obtain ⟨a, b, c, d, z⟩ := cmd_sched_refines fill fuel {} win chunks caps [] [] o ⟨rfl, rfl, by simp, by simp, by simp⟩ h
+  simp only [List.nil_append] at e z
+  rw [e] at hin
+  have hin' : (flat segs).drop st.curr = chunks.flatten ++ 0 :: junk := by simpa using hin
+  obtain ⟨r1, r2, _, _⟩ := cmd_decoder_refines st segs chunks.flatten junk hlen hpos hin' (fun x hx h0 => z (h0 ▸ hx))
+  refine ⟨r1, ?_⟩
+  have : decCmd (chunks.flatten ++ [0]) = some (cmdHeader ++ chunks.flatten) := by simp [decCmd, z]
+  rw [this] at r2
+  exact (Option.some.inj r2).symm
 
 end Mpt.C01
